@@ -655,3 +655,55 @@ func init() {
 	register(&Scenario{Prop: "C18", Name: "c18/hung-probe", Quick: []Bound{{0, 0}, {1, 0}}, Thorough: []Bound{{2, 0}}, Body: c18HungProbe, MaxSteps: 100000, BudgetQ: 15})
 	register(&Scenario{Prop: "C18", Name: "c18/director-callbacks", Quick: []Bound{{0, 0}, {1, 0}}, Thorough: []Bound{{2, 0}}, Body: c18Director, MaxSteps: 100000, BudgetQ: 15})
 }
+
+// the application re-supplies the target list (Update) while a health probe of one target is in
+// flight; the probe then succeeds.  Later that target starts refusing connections: it stops
+// receiving calls within the detection time like any other (a probe result that belongs to the
+// replaced target table must not leave something behind that nobody examines any more).
+func c18UpdateDuringProbe(x *X) {
+	sched := []rpc.Scheduling{rpc.RoundRobinScheduling, rpc.LeastTimeScheduling}[x.Choose(2)]
+	same := x.Choose(2) == 1 // Update with the same addresses / with one more
+	s := newCliSys(x, sched, "a", "b")
+	s.rt.up["a"], s.rt.up["b"], s.rt.up["c"] = true, true, true
+	s.rt.gate["a"] = true // probes of a take long
+	s.tick(1)
+	if same {
+		s.c.Update("a", "b")
+	} else {
+		s.c.Update("b", "a", "c")
+	}
+	vs.Quiesce()
+	s.rt.gate["a"] = false // the probes that were in flight return now: a is reachable
+	s.tick(3)
+	for i := 0; i < 4; i++ {
+		clientCall(s.c, cfCall)
+	}
+	s.rt.up["a"] = false
+	for i := 0; i < 4; i++ { // one of these hits a and fails
+		clientCall(s.c, cfCall)
+		s.tick(1)
+	}
+	s.tick(2)
+	from := len(s.rt.routed)
+	for i := 0; i < 6; i++ {
+		clientCall(s.c, cfCall)
+		s.tick(1)
+	}
+	hits := 0
+	var seq []string
+	for _, r := range s.rt.userRoutes(from) {
+		seq = append(seq, r.addr)
+		if r.addr == "a" {
+			hits++
+		}
+	}
+	if hits > 1 {
+		x.Fail("C18/no-failover/update-during-probe", "target a has refused connections for 4 calls and 6 detector periods while another target is healthy, and %d of the next 6 calls were still sent to it (%v); earlier, Update(%v) had run while a probe of a was in flight", hits, seq, map[bool]string{true: "a, b", false: "b, a, c"}[same])
+	}
+	x.Outcome("sched=%d same=%v seq=%v", sched, same, seq)
+	s.close()
+}
+
+func init() {
+	register(&Scenario{Prop: "C18", Name: "c18/update-during-probe", Quick: []Bound{{0, 0}, {1, 0}}, Thorough: []Bound{{2, 0}}, Body: c18UpdateDuringProbe, MaxSteps: 100000, BudgetQ: 15})
+}
